@@ -64,6 +64,14 @@ fn gen(rng: &mut Rng, depth: usize) -> GE {
         1 => GE::Un("not", Box::new(gen(rng, depth - 1))),
         2 => GE::Bin(*rng.pick(&["and", "or"]), Box::new(gen(rng, depth - 1)), Box::new(gen(rng, depth - 1))),
         3 => GE::Bin(*rng.pick(&CMP), Box::new(gen(rng, depth - 1)), Box::new(gen(rng, depth - 1))),
+        4 if depth >= 2 => {
+            // left-nested chains with two literals and one operator: (e OP c1) OP c2
+            let op = *rng.pick(&["+", "*", "-"]);
+            let e = if rng.chance(2, 3) { GE::Field(*rng.pick(&["x", "y"])) } else { gen(rng, depth - 2) };
+            let c1 = GE::Lit(*rng.pick(&["1", "2", "3", "7"]));
+            let c2 = GE::Lit(*rng.pick(&["1", "2", "3", "7"]));
+            GE::Bin(op, Box::new(GE::Bin(op, Box::new(e), Box::new(c1))), Box::new(c2))
+        }
         _ => {
             // bias towards the identity shapes the folder rewrites
             let op = *rng.pick(&ARITH);
@@ -84,6 +92,9 @@ fn field_values() -> Vec<(&'static str, Option<Value>)> {
         ("float-neg0", Some(Value::Float(-0.0))),
         ("float-nan", Some(Value::Float(f64::NAN))),
         ("float-inf", Some(Value::Float(f64::INFINITY))),
+        // floats on which re-association of constants is visible: spacing 2 at 2^53, non-dyadic 0.1
+        ("float-2p53", Some(Value::Float(9007199254740992.0))),
+        ("float-tenth", Some(Value::Float(0.1))),
         ("str", Some(Value::Str("ab".into()))),
         ("bool", Some(Value::Bool(true))),
         ("null", Some(Value::Null)),
@@ -296,7 +307,7 @@ fn main() {
     install_quiet_panic_hook();
     watchdog("C10", args.pick(1200, 14400));
     let mut rep = Report::new("C10", "exploration", &args);
-    rep.rule = "random arithmetic/boolean expressions of depth <=4 over literals (0, 1, small ints, i64::MAX, floats incl. 0.0/1e308, booleans, a string) and fields x, y, biased towards the identity shapes (e OP 0, e OP 1, both orders); each parsed with and without folding (hook H3) and evaluated on events where x takes 12 value kinds (ints incl. 0/negative/max, floats incl. -0.0/NaN/inf, string, bool, null, missing) and y is an int or a float; also loaded end-to-end in `.emit(r: e)`, `.where(e)` and `.having(e)` contexts. Non-trivial: expression in which the folder rewrote >=1 node; distinct by expression text.".into();
+    rep.rule = "random arithmetic/boolean expressions of depth <=4 over literals (0, 1, small ints, i64::MAX, floats incl. 0.0/1e308, booleans, a string) and fields x, y, biased towards the identity shapes (e OP 0, e OP 1, both orders); each parsed with and without folding (hook H3) and evaluated on events where x takes 14 value kinds (ints incl. 0/negative/max, floats incl. -0.0/NaN/inf/2^53/0.1, string, bool, null, missing) and y is an int or a float; also loaded end-to-end in `.emit(r: e)`, `.where(e)` and `.having(e)` contexts. Non-trivial: expression in which the folder rewrote >=1 node; distinct by expression text.".into();
     rep.assume("cases where evaluating the UNFOLDED expression panics (e.g. integer overflow) are not compared: that is C11's subject and is counted as skipped_unfolded_panics");
     #[cfg(not(varpulis_verif))]
     rep.inconclusive("built without --cfg varpulis_verif: parse_unfolded (hook H3) unavailable");
